@@ -133,8 +133,9 @@ Report ==
             held == /\ sane /\ Len(Ev.read) = Ev.e - Ev.s
                     /\ \A k \in 1..Len(Ev.read) : Ev.read[k][1] # -1
             lacks == sane /\ ~held
-            exempt(k) == /\ Ev.read[k][1] = 1 /\ Ev.read[k][3] = CFG           \* checksumLog's bootstrap exception
-                         /\ T.truth[k][1] = 1 /\ T.truth[k][3] = CFG
+            exempt(k) == /\ Ev.read[k][1] = 1 /\ Ev.read[k][3] = CFG           \* checksumLog's bootstrap exception:
+                         /\ T.truth[k][1] = 1 /\ T.truth[k][3] = CFG           \* an index-1 configuration entry on the
+                         /\ k <= Len(Ev.cur) /\ Ev.cur[k][1] = 1 /\ Ev.cur[k][3] = CFG   \* leader, in the store and as read
             differs(k) == Core(Ev.read[k]) # Core(T.truth[k])
             cpok == T.tok /\ Core(Ev.cpread) = Core(T.cp)          \* the checkpoint entry itself is stored as its leader wrote it
             stored(k) == Core(Ev.cur[k]) = Core(T.truth[k])           \* stored exactly as the leader wrote it ...
